@@ -510,9 +510,17 @@ func (s *session) rejectClass(of *offer, out outcome) {
 // checkEnumeration compares the full enumeration with the model.
 func (s *session) checkEnumeration(view string, st blobserver.Storage, lastRejected bool) {
 	got, err := enumerateAll(st)
+	// A replica with minWrites < n finishes its remaining writes in the background; an enumeration
+	// racing with such a write may fail transiently (not this property's subject): retry.
+	for try := 0; err != nil && try < 200; try++ {
+		s.r.Note("observations", "enumeration-error-retried:"+s.label)
+		time.Sleep(time.Duration(try+1) * 100 * time.Microsecond)
+		got, err = enumerateAll(st)
+	}
 	s.r.Eval(1)
 	if err != nil {
-		s.viol("enumerate-error/"+s.site(), "%s: full enumeration failed: %v", view, err)
+		s.r.Inconclusive(fmt.Sprintf("%s: %s: full enumeration keeps failing: %v", s.site(), view, err))
+		s.dead = true
 		return
 	}
 	for ref, size := range got {
@@ -597,22 +605,34 @@ func (s *session) settleListeners() {
 
 // scanTmp looks for leftover temp files in every localdisk tree of the session.
 func (s *session) scanTmp() {
-	found := ""
-	n := 0
-	filepath.Walk(s.dir, func(p string, fi os.FileInfo, err error) error {
-		if err != nil || fi.IsDir() {
+	scan := func() (found string, n int) {
+		filepath.Walk(s.dir, func(p string, fi os.FileInfo, err error) error {
+			if err != nil || fi.IsDir() {
+				return nil
+			}
+			rel, _ := filepath.Rel(s.dir, p)
+			if !strings.HasPrefix(rel, "localdisk") {
+				return nil
+			}
+			n++
+			if strings.Contains(fi.Name(), ".tmp") {
+				found = rel
+			}
 			return nil
+		})
+		return
+	}
+	found, n := scan()
+	// a temp file of a write still running in the background (replica with minWrites < n) is
+	// transient; a leftover is not: only a file that is still there after 2 s is reported
+	for try := 0; found != "" && try < 40; try++ {
+		time.Sleep(50 * time.Millisecond)
+		f2, _ := scan()
+		if f2 != found {
+			found = f2
+			try = 0
 		}
-		rel, _ := filepath.Rel(s.dir, p)
-		if !strings.HasPrefix(rel, "localdisk") {
-			return nil
-		}
-		n++
-		if strings.Contains(fi.Name(), ".tmp") {
-			found = rel
-		}
-		return nil
-	})
+	}
 	if n > 0 || hasKindDeep(s.spec, "localdisk") {
 		s.r.Eval(1)
 		s.r.Note("views", "tmpfile-scan")
